@@ -16,9 +16,13 @@ def muts_for(rng, klen, adl, ml, full):
     tagbits = range(128) if full else rng.sample(range(128), 24)
     mu += ['c:%d:%d' % (ml + b // 8, 1 << (b % 8)) for b in tagbits]
     # paired differences in both halves of the tag (a comparison that folds words must not cancel them)
-    for _ in range(8 if full else 3):
-        j = rng.randrange(8); d = rng.randrange(1, 256)
-        mu += ['c:%d:%d' % (ml + j, d)]           # single (control) ...
+    for j in range(8):
+        mu += ['cc:%d:%d:%d' % (ml + j, ml + j + 8, rng.randrange(1, 256))]
+    for dist in (1, 2, 4):
+        for _ in range(4 if full else 2):
+            j = rng.randrange(16 - dist); mu += ['cc:%d:%d:%d' % (ml + j, ml + j + dist, 1 << rng.randrange(8))]
+    for _ in range(12 if full else 4):
+        a, b = rng.sample(range(ctl), 2); mu += ['cc:%d:%d:%d' % (a, b, rng.randrange(1, 256))]
     mu += ['a:%d:%d' % (i, 1 << rng.randrange(8)) for i in range(adl)]
     nb = range(128) if full else rng.sample(range(128), 20)
     mu += ['n:%d:%d' % (b // 8, 1 << (b % 8)) for b in nb]
